@@ -273,12 +273,10 @@ func (r *vC04Run) runSchedule(scn *vC04Scn, alphabet map[string]bool) {
 	if scn.WK == "put" || scn.WK == "touch" {
 		actors["w"] = &actor{id: 1, op: scn.WK, status: make(chan int, 1)}
 		order = append(order, "w")
-	} else if scn.WK == "pull" || scn.WK == "pull_any" {
-		a := &actor{id: 1, op: "pull", status: make(chan int, 1)}
-		if scn.WK == "pull" {
-			a.mount = scn.RV
-		}
-		actors["w"] = a
+	} else if scn.WK == "pull" {
+		// (a pull-list item without mount_uuid, "pull_any", is never sent: the pull worker would
+		// dereference a nil *VolumeMount and take the process down, proposed_fixes/C04-3.diff)
+		actors["w"] = &actor{id: 1, op: "pull", status: make(chan int, 1), mount: scn.RV}
 		order = append(order, "w")
 	}
 	if scn.TK != "" && scn.TK != "none" {
